@@ -52,12 +52,12 @@ add('C06', 'ENUM+SYS', 'model_checking',
     'exhaustive input enumeration + explicit-state BFS with transition monitor', 'DESIGN.md section 5 C06')
 
 add('C02', 'SYS', 'fault_enumeration',
-    'For every job transition of the explored FLOW graphs that mutates the remote: one re-execution per crash boundary between remote-mutating operations (git push, comment, PR creation, decline) and one per single ref rejected by a real update hook; at the interrupted state all-or-none of every user commit over its targets and the C01 chain are checked on the remote; then the event is re-delivered to a fresh Bert-E (documented queue reset if asked) and destination trees are compared with the uninterrupted run.',
+    'For every job transition of the explored FLOW graphs that mutates the remote: one re-execution per crash boundary between remote-mutating operations (git push, comment, PR creation, decline) and one per single ref rejected by a real update hook, plus environment answers: each command that talks to the remote failing once, each mutating host API call answering 503 once, every octopus merge of the job failing; at the interrupted state all-or-none of every user commit over its targets and the C01 chain are checked on the remote; then the event is re-delivered to a fresh Bert-E (documented queue reset if asked) and destination trees are compared with the uninterrupted run.',
     'crash = crash-stop between operations (a single ref update is atomic in git); delivery is at-least-once, so both runs are settled by re-delivering the event until destinations stop moving; mock git host.',
-    'exhaustive crash-point / rejected-ref enumeration on the real implementation', 'DESIGN.md section 5 C02')
+    'exhaustive crash-point / rejected-ref / single-fault enumeration on the real implementation', 'DESIGN.md section 5 C02')
 
 add('C08', 'SYS', 'model_checking',
-    'BFS over FLOW histories (decline, reset, queue admin jobs, delete_branch) with a monitor on every job: destination updates are fast-forwards, deleted only by delete_branch with an archive tag on the tip, no ref outside w/ q/ tmp/ changes, no forced push, former destination tips stay reachable; plus, for every push of every job, one re-execution per third-party action (new branch, push to a source branch, force-push of a source branch) placed immediately before that push.',
+    'BFS over FLOW histories (decline, reset, queue admin jobs, delete_branch) with a monitor on every job: destination updates are fast-forwards, deleted only by delete_branch with an archive tag on the tip, no ref outside w/ q/ tmp/ changes, no forced push, former destination tips stay reachable; plus, for every push of every job, one re-execution per third-party action (new branch, push to a source branch, force-push of a source branch) placed immediately before that push, plus two environment faults per pushing job (stale clone cache with a failing refresh; each command that talks to the remote failing once). Histories include merge conflicts resolved by hand and integration branches deleted by hand.',
     'the third party acts directly on the bare remote, one action per job, at push boundaries (as the quantifier says); mock git host.',
     'explicit-state BFS + exhaustive placement of one concurrent action per push', 'DESIGN.md section 5 C08')
 add('C10', 'SYS', 'model_checking',
@@ -66,7 +66,7 @@ add('C10', 'SYS', 'model_checking',
     'explicit-state BFS + repeated-delivery deviation on every transition', 'DESIGN.md section 5 C10')
 
 add('C16', 'SYS+ENUM', 'fault_enumeration',
-    '(a) for every shell command index of every kind of job (scripted histories on a credentialed clone URL): the command fails and hangs while printing the URL; all channels (formatted log records with tracebacks at DEBUG and INFO, fd 1/2, job status/details/json, /api/jobs payload, status page, comments) are searched for the password in raw and quoted forms. (b) GitHub password and App flows through a scripted HTTP session with one misbehaving endpoint at a time; log, stdout, stderr and exception text searched for password, header values, JWT and installation token.',
+    '(a) for every shell command index of every kind of job (scripted histories on a credentialed clone URL): the command fails and hangs while printing the URL; all channels (formatted log records with tracebacks at DEBUG and INFO, fd 1/2, job status/details/json, /api/jobs payload, status page, comments) are searched for the password in raw and quoted forms. (a') the masking of simplecmd.cmd itself over 34 boundary passwords x {success, exit 128, time-out} x {DEBUG, INFO}. (b) GitHub password and App flows through a scripted HTTP session with one misbehaving endpoint at a time; log, stdout, stderr and exception text searched for password, header values, JWT and installation token.',
     'fault injection keeps the original command line (behaviour comes from an environment variable) so a URL is on the command line only if the real command has it; mock git host for (a), scripted requests.Session.request for (b).',
     'exhaustive single-fault enumeration on the real implementation', 'DESIGN.md section 5 C16')
 
@@ -90,7 +90,7 @@ add('C20', 'SYS', 'model_checking',
     'mock git host; layouts D3, S3, H3; build status bypassed so that depth is spent on queue states.',
     'explicit-state BFS with transition monitor', 'DESIGN.md section 5 C20')
 add('C13', 'THR', 'model_checking',
-    'Real threads run the real put_job / process_task / Job.__eq__ under a baton scheduler with cooperative queue locks; every schedule with at most 2 (thorough 3) preemptions at source-line granularity is executed; oracle: every accepted request is followed by an evaluation of that key that starts after the request arrived; after every job it is finished, recorded with the right status and the current-job marker is cleared; the worker is alive and waiting at quiescence; no deadlock. A free-running pass of the same bodies can only add crash alarms.',
+    'Real threads run the real put_job / process_task / Job.__eq__ under a baton scheduler with cooperative queue locks; every schedule with at most 2 (thorough 3) preemptions at source-line granularity is executed; oracle: every accepted request is followed by an evaluation of that key that starts after the request arrived; after every job it is finished, recorded with the right status and the current-job marker is cleared; the worker is alive and waiting at quiescence; no deadlock. A free-running pass of the same bodies can only add crash alarms. Two sequential passes complete it: every ordered pair of a 25-entry menu of job outcomes on one worker, and every status webhook event through the real handlers in every cache state within 3 steps (an accepted event must yield a job).',
     'CPython GIL semantics; dispatch replaced by a recorder with a scripted outcome; states/transitions in the evidence are schedules (stateless search).',
     'stateless preemption-bounded exploration of real threads (CHESS style)', 'DESIGN.md section 5 C13')
 
@@ -100,6 +100,6 @@ add('C14', 'ENUM', 'exploration',
     'exhaustive matrix enumeration vs oracle table', 'DESIGN.md section 5 C14')
 
 add('C05', 'ENUM', 'model_checking',
-    'For every configuration (cascade x destination of each queued pull request, in order of entry) the queue is built on a real repository by real Bert-E and its commit graph extracted; the real QueueCollection (build, validate, mergeable_prs, mergeable_queues) then runs over a FakeRepo answering git from that graph for every assignment of build statuses to every queue commit (and force merge), and is compared with the longest-all-green-prefix reference of the statement; sampled assignments and every disagreement are replayed through handle_merge_queues on the real repository (conformance).',
+    'For every configuration (cascade x destination of each queued pull request, in order of entry) the queue is built on a real repository by real Bert-E and its commit graph extracted; the real QueueCollection (build, validate, mergeable_prs, mergeable_queues) then runs over a FakeRepo answering git from that graph for every assignment of build statuses to every queue commit (and force merge), and is compared with the longest-all-green-prefix reference of the statement; sampled assignments and every disagreement are replayed through handle_merge_queues on the real repository (conformance, and judged against the statement there too). Configurations are also built after a prehistory that leaves empty queue branches behind.',
     'the model of git is the extracted graph + rev-parse / is-ancestor / branch listing re-implemented over it, validated by the replays (traces_validated_against_impl).',
     'exhaustive enumeration over an extracted model + conformance replay on the implementation', 'DESIGN.md section 5 C05')
